@@ -2,6 +2,7 @@ import GV.Drv.Orch
 import GV.Drv.KC
 import GV.Drv.Eval
 import GV.Drv.EvalSpec
+import GV.Drv.Compile
 open Lean GV.Drv
 
 def handle (line : String) : String :=
@@ -12,6 +13,7 @@ def handle (line : String) : String :=
     | "orch" => (orchCase j).compress
     | "kc" => (kcCase j).compress
     | "eval" => (evalCaseFull j).compress
+    | "compile" => (compileCase j).compress
     | s => (Json.mkObj [("i", jObj j "i"), ("error", Json.str s!"unknown scenario {s}")]).compress
 
 partial def loop (h : IO.FS.Stream) (out : IO.FS.Stream) : IO Unit := do
